@@ -150,6 +150,223 @@ pub fn families(focus: Focus) -> Vec<Box<dyn Family>> {
             captured_case(focus, cfg, alg, &a, 0..a.len(), &b, 0..b.len(), rng.below(3) as u8, false, out);
         },
     ));
+    v.push(family(
+        "far",
+        "long pairs with a LARGE edit distance: (a) two mostly unrelated sequences of 2500..5000 items (thorough up to 9000) sharing 5..80 landmarks (the search runs for thousands of rounds), (b) common head/tail around a replaced block with strongly asymmetric sizes (10..6000 old items replaced by 10..6000 unrelated new items) x {Myers, Patience}; C03 compares with the DP optimum; deadline none + 4 sampled expiry points (not C03)",
+        false,
+        1,
+        move |cfg| if cfg.tiny { 2 } else { cfg.tier.pick(24, 160) },
+        move |idx, cfg, out| {
+            let mut rng = Rng::for_case(cfg.seed, "captured.far", idx);
+            let (a, b) = if cfg.tiny {
+                gen::asymmetric_replace(&mut rng, 2, 2, 5, 1)
+            } else if idx % 2 == 0 {
+                let hi = cfg.tier.pick(5000, 9000);
+                let (n, m) = (rng.range(2500, hi), rng.range(2500, hi));
+                let k = rng.range(5, 80);
+                let crossing = rng.below(4);
+                gen::landmark_pair(&mut rng, n, m, k, crossing)
+            } else {
+                let sizes = [10usize, 100, 1000, 2600, 4200, 6000];
+                let (l1, l2) = (*rng.pick(&sizes), *rng.pick(&sizes));
+                let (head, tail) = (rng.below(300), rng.below(300));
+                gen::asymmetric_replace(&mut rng, head, tail, l1, l2)
+            };
+            let alg = if focus == Focus::C03 || rng.chance(1, 2) { Algorithm::Myers } else { Algorithm::Patience };
+            out.sample(|| format!("alg={} N={} M={} old={} new={}", alg_name(alg), a.len(), b.len(), fmt_seq(&a), fmt_seq(&b)));
+            out.count("far_cases");
+            captured_case(focus, cfg, alg, &a, 0..a.len(), &b, 0..b.len(), rng.below(3) as u8, false, out);
+        },
+    ));
+    v.push(family(
+        "windowed",
+        "long sequences (sizes just around 256 / 1024 / 2048 / 4096 / 8192 and 4200, 9000) whose edits are confined to a window of <= 30 items: cheap for ALL THREE algorithms (LCS strips the common prefix/suffix), so LCS is exercised far above 4096 x 4096 items",
+        false,
+        1,
+        move |cfg| if cfg.tiny { 2 } else { cfg.tier.pick(54, 360) },
+        move |idx, cfg, out| {
+            let mut rng = Rng::for_case(cfg.seed, "captured.windowed", idx);
+            let n = if cfg.tiny { 9 } else { gen::SIZES_NEAR_BOUNDARIES[(idx % 18) as usize] };
+            let (a, b) = gen::windowed_edit_pair(&mut rng, n, 30);
+            let alg = ALGS[(idx / 18 % 3) as usize];
+            let alg = if focus == Focus::C03 && alg == Algorithm::Patience { Algorithm::Lcs } else { alg };
+            out.sample(|| format!("alg={} N={} M={}", alg_name(alg), a.len(), b.len()));
+            out.count("windowed_cases");
+            if alg == Algorithm::Lcs && a.len() * b.len() > (1 << 24) {
+                out.count("lcs_cases_above_4096x4096");
+            }
+            captured_case(focus, cfg, alg, &a, 0..a.len(), &b, 0..b.len(), rng.below(3) as u8, false, out);
+        },
+    ));
+    v.push(family(
+        "long_runs",
+        "runs of 1100..9000 identical items (thorough up to 70000) next to a pure insertion / deletion / an extra marker: the clean-up has to slide an edit across thousands of identical items x 3 algorithms (LCS where the changed region stays small)",
+        false,
+        1,
+        move |cfg| if cfg.tiny { 2 } else { cfg.tier.pick(36, 240) },
+        move |idx, cfg, out| {
+            let mut rng = Rng::for_case(cfg.seed, "captured.long_runs", idx);
+            let run = if cfg.tiny { 6 } else { *rng.pick(&[1100usize, 2100, 4200, 9000, cfg.tier.pick(9000, 70_000)]) };
+            let (a, b) = gen::long_run_pair(&mut rng, run);
+            let alg = ALGS[rng.below(3)];
+            let alg = if focus == Focus::C03 && alg == Algorithm::Patience { Algorithm::Myers } else { alg };
+            // LCS only when prefix/suffix stripping leaves a small middle
+            let alg = if alg == Algorithm::Lcs && a.len().min(b.len()) > 2500 { Algorithm::Myers } else { alg };
+            if focus == Focus::C03 && a.len().max(b.len()) > 6000 {
+                return;
+            }
+            out.sample(|| format!("alg={} N={} M={} (run of {} identical items)", alg_name(alg), a.len(), b.len(), run));
+            out.count("long_run_cases");
+            captured_case(focus, cfg, alg, &a, 0..a.len(), &b, 0..b.len(), rng.below(3) as u8, false, out);
+        },
+    ));
+    v.push(family(
+        "distinct_boundary",
+        "n DISTINCT items with n just below 256 / 1024 / 4096 / 65536 where a block of <= 100 items is replaced by enough fresh items that the number of distinct items on both sides together crosses the boundary while each side stays below it; through capture_diff and through TextDiff::configure().diff_slices (integer mapping) x {Myers, Patience}",
+        true,
+        1,
+        move |cfg| if cfg.tiny { 1 } else { 16 },
+        move |idx, cfg, out| {
+            let mut rng = Rng::for_case(cfg.seed, "captured.distinct_boundary", idx);
+            let bound = if cfg.tiny { 8 } else { [256usize, 1024, 4096, 65536][(idx % 4) as usize] };
+            let n = bound - 1 - rng.below(bound.min(400) / 4 + 1);
+            let l1 = rng.below(100.min(n / 2) + 1);
+            let l2 = (bound - n + 1) + l1 + rng.below(300);
+            let head = rng.below(n - l1 + 1);
+            let (a, b) = gen::asymmetric_replace(&mut rng, head, n - l1 - head, l1, l2);
+            let (a, b) = if idx % 8 < 4 { (a, b) } else { (b, a) };
+            let alg = if focus == Focus::C03 || idx % 2 == 0 { Algorithm::Myers } else { Algorithm::Patience };
+            if focus == Focus::C03 && n > 5000 {
+                return;
+            }
+            out.sample(|| format!("alg={} N={} M={} (boundary {})", alg_name(alg), a.len(), b.len(), bound));
+            out.count("distinct_boundary_cases");
+            captured_case(focus, cfg, alg, &a, 0..a.len(), &b, 0..b.len(), 2, false, out);
+            captured_case(focus, cfg, alg, &a, 0..a.len(), &b, 0..b.len(), 0, false, out);
+        },
+    ));
+    v.push(family(
+        "tolerance",
+        "heterogeneous item types with a NON-TRANSITIVE, coarse cross comparison (old u32, new Tol: equal iff |a-b| <= 1): every ordered pair over {0..4} with length <= 4 (thorough 5) + seeded random pairs over {0..9} up to 40 items x 3 algorithms through capture_diff: validity / normal form / carried positions / minimality are all judged under that same cross comparison",
+        true,
+        16,
+        move |cfg| {
+            let n = gen::all_seqs(5, if cfg.tiny { 2 } else { cfg.tier.pick(4, 5) }).len() as u64;
+            n * n
+        },
+        move |idx, cfg, out| {
+            let seqs = gen::all_seqs(5, if cfg.tiny { 2 } else { cfg.tier.pick(4, 5) });
+            let (a, b) = gen::pair_of(seqs, idx);
+            let a: Vec<u32> = a.iter().map(|x| *x as u32).collect();
+            let b: Vec<u32> = b.iter().map(|x| *x as u32).collect();
+            out.sample(|| format!("old={:?} new(Tol)={:?}", a, b));
+            tolerance_case(focus, cfg, &a, &b, out);
+            if idx % 16 == 0 {
+                let mut rng = Rng::for_case(cfg.seed, "captured.tolerance", idx);
+                let la = rng.below(if cfg.tiny { 5 } else { 40 });
+                let lb = rng.below(if cfg.tiny { 5 } else { 40 });
+                let a: Vec<u32> = (0..la).map(|_| rng.below(10) as u32).collect();
+                let b: Vec<u32> = if rng.chance(1, 2) { (0..lb).map(|_| rng.below(10) as u32).collect() } else { gen::point_edits(&mut rng, &a, 3, 10, 44) };
+                tolerance_case(focus, cfg, &a, &b, out);
+            }
+        },
+    ));
+    v.push(family(
+        "stacks_and_lookups",
+        "the same diffs through other capture pipelines, which must give exactly the ops of capture_diff: (a) Compact::new(Replace::new(&mut capture), ..) with a BORROWED capture hook, (b) capture_diff through IdentifyDistinct::<u16|u32> lookups of sub-ranges with DIFFERENT non-zero starts (ops are judged against the caller's ranges); seeded random pairs up to 60 items x 3 algorithms",
+        false,
+        16,
+        move |cfg| cfg.n(6_000, 120_000),
+        move |idx, cfg, out| {
+            let mut rng = Rng::for_case(cfg.seed, "captured.stacks", idx);
+            let (a, b) = gen::rand_pair(&mut rng, if cfg.tiny { 6 } else { 40 });
+            let (po, pn) = (rng.below(5), 5 + rng.below(5));
+            let mut pa = vec![900u32; po];
+            pa.extend_from_slice(&a);
+            pa.extend_from_slice(&[901, 901]);
+            let mut pb = vec![902u32; pn];
+            pb.extend_from_slice(&b);
+            pb.push(903);
+            let (or, nr) = (po..po + a.len(), pn..pn + b.len());
+            let alg = ALGS[rng.below(3)];
+            if focus == Focus::C03 && alg == Algorithm::Patience {
+                return;
+            }
+            out.sample(|| format!("alg={} old={} range {:?} new={} range {:?}", alg_name(alg), fmt_seq(&pa), or, fmt_seq(&pb), nr));
+            if a != b && !a.is_empty() && !b.is_empty() {
+                out.nontrivial(&(focus.tag(), "stacks", alg_name(alg), &pa, po, &pb, pn));
+            }
+            let reference = guard(|| capture_diff(alg, &pa[..], or.clone(), &pb[..], nr.clone()));
+            let pipeline = |which: u8, repair: bool| -> Result<Run, String> {
+                let swaps0 = vh::swaps();
+                vh::set_swap_repair(repair);
+                let r = guard(|| {
+                    if which == 10 {
+                        // (a) borrowed capture hook
+                        let mut cap = similar::algorithms::Capture::new();
+                        {
+                            let mut d = similar::algorithms::Compact::new(similar::algorithms::Replace::new(&mut cap), &pa[..], &pb[..]);
+                            similar::algorithms::diff(alg, &mut d, &pa[..], or.clone(), &pb[..], nr.clone()).unwrap();
+                        }
+                        cap.into_ops()
+                    } else if idx % 2 == 0 {
+                        // (b) through the integer mapping
+                        let h = similar::algorithms::IdentifyDistinct::<u16>::new(&pa[..], or.clone(), &pb[..], nr.clone());
+                        capture_diff(alg, h.old_lookup(), h.old_range(), h.new_lookup(), h.new_range())
+                    } else {
+                        let h = similar::algorithms::IdentifyDistinct::<u32>::new(&pa[..], or.clone(), &pb[..], nr.clone());
+                        capture_diff(alg, h.old_lookup(), h.old_range(), h.new_lookup(), h.new_range())
+                    }
+                });
+                vh::set_swap_repair(false);
+                r.map(|ops| Run { ops, swaps: vh::swaps() - swaps0, probes: 0 })
+            };
+            let eq = |o: usize, n: usize| pa[o] == pb[n];
+            for (what, which) in [("Compact<Replace<&mut Capture>>", 10u8), ("capture_diff through IdentifyDistinct lookups", 11u8)] {
+                out.eval();
+                let run = pipeline(which, false);
+                if focus == Focus::C11 {
+                    // own attribution: the SAME pipeline is re-run with the repair switch
+                    if let Ok(r) = &run {
+                        let v = check_ops(&r.ops, &eq, or.clone(), nr.clone());
+                        let c = || ctx(alg, &pa, &or, &pb, &nr, which, None);
+                        for (code, msg) in &v.script {
+                            if code.ends_with("_position") {
+                                out.violation(code, format!("{} | {} | ops={}", msg, c(), fmt_ops(&r.ops)));
+                            }
+                        }
+                        if v.script.is_empty() && !v.carried.is_empty() {
+                            let mut is_kf1 = false;
+                            if cfg.is_known(KF1) && r.swaps > 0 {
+                                if let Ok(r2) = pipeline(which, true) {
+                                    let v2 = check_ops(&r2.ops, &eq, or.clone(), nr.clone());
+                                    is_kf1 = v2.script.is_empty() && v2.carried.is_empty();
+                                }
+                            }
+                            if is_kf1 {
+                                out.known_finding(KF1, || format!("{} | {} | ops={}", v.carried[0].1, c(), fmt_ops(&r.ops)));
+                            } else {
+                                for (code, msg) in &v.carried {
+                                    out.violation(code, format!("{} | {} | ops={} | swaps in this run: {}", msg, c(), fmt_ops(&r.ops), r.swaps));
+                                }
+                            }
+                        }
+                    }
+                    continue;
+                }
+                // judged exactly like a capture_diff result, against the CALLER's ranges
+                let got = judge(focus, cfg, alg, &pa, &or, &pb, &nr, which, None, &run, out);
+                if let (Some(g), Ok(want)) = (&got, &reference) {
+                    if focus == Focus::C02 && g != want {
+                        out.violation(
+                            "ops.pipeline_differs",
+                            format!("{} gives {} but capture_diff gives {} | alg={} old={} range {:?} new={} range {:?}", what, fmt_ops(g), fmt_ops(want), alg_name(alg), fmt_seq(&pa), or, fmt_seq(&pb), nr),
+                        );
+                    }
+                }
+            }
+        },
+    ));
     v
 }
 
@@ -301,9 +518,11 @@ fn ctx(alg: Algorithm, a: &[u32], or: &Range<usize>, b: &[u32], nr: &Range<usize
     format!(
         "alg={} entry={} old={} range {:?} new={} range {:?} deadline={}",
         alg_name(alg),
-        match if full { entry } else { 0 } {
+        match if full || entry >= 10 { entry } else { 0 } {
             0 => "capture_diff(_deadline)",
             1 => "capture_diff_slices(_deadline)",
+            10 => "Compact<Replace<&mut Capture>> (borrowed hook)",
+            11 => "capture_diff through IdentifyDistinct lookups",
             _ => "TextDiff::configure().diff_slices",
         },
         fmt_seq(a),
@@ -548,6 +767,77 @@ fn minimality(
                 }
             }
             Err(p) => out.violation("panic", format!("TextDiff panicked: {} | {}", p, c())),
+        }
+    }
+}
+
+fn tolerance_case(focus: Focus, cfg: &Config, a: &[u32], b: &[u32], out: &mut Local) {
+    let tb: Vec<crate::mon::Tol> = b.iter().map(|x| crate::mon::Tol(*x)).collect();
+    let eq = |o: usize, n: usize| tb[n] == a[o];
+    for alg in ALGS {
+        if focus == Focus::C03 && alg == Algorithm::Patience {
+            continue;
+        }
+        let c = || format!("alg={} entry=capture_diff old(u32)={} new(Tol: equal iff |a-b|<=1)={}", alg_name(alg), fmt_seq(a), fmt_seq(b));
+        out.eval();
+        let swaps0 = vh::swaps();
+        let r = guard(|| capture_diff(alg, a, 0..a.len(), &tb[..], 0..tb.len()));
+        let swaps = vh::swaps() - swaps0;
+        let ops = match r {
+            Err(p) => {
+                if focus == Focus::C02 || focus == Focus::C03 {
+                    out.violation("panic", format!("capture panicked: {} | {}", p, c()));
+                }
+                continue;
+            }
+            Ok(o) => o,
+        };
+        out.count("tolerance_runs");
+        if !a.is_empty() && !b.is_empty() {
+            out.nontrivial(&(focus.tag(), "tol", alg_name(alg), a, b));
+        }
+        let v = check_ops(&ops, &eq, 0..a.len(), 0..b.len());
+        match focus {
+            Focus::C02 => {
+                for (code, msg) in &v.script {
+                    out.violation(code, format!("{} | {} | ops={}", msg, c(), fmt_ops(&ops)));
+                }
+            }
+            Focus::C09 => {
+                for (code, msg) in &v.normal {
+                    out.violation(code, format!("{} | {} | ops={}", msg, c(), fmt_ops(&ops)));
+                }
+            }
+            Focus::C03 => {
+                if v.script.is_empty() {
+                    let l = lcs_len(a, &tb[..]);
+                    let opt = a.len() + b.len() - 2 * l;
+                    if v.deleted + v.inserted != opt {
+                        out.violation("minimal.captured_cost", format!("captured ops delete {} + insert {} items but the optimum under this comparison is {} | {} | ops={}", v.deleted, v.inserted, opt, c(), fmt_ops(&ops)));
+                    }
+                }
+            }
+            Focus::C11 => {
+                if v.script.is_empty() && !v.carried.is_empty() {
+                    let mut is_kf1 = false;
+                    if cfg.is_known(KF1) && swaps > 0 {
+                        vh::set_swap_repair(true);
+                        let r2 = guard(|| capture_diff(alg, a, 0..a.len(), &tb[..], 0..tb.len()));
+                        vh::set_swap_repair(false);
+                        if let Ok(o2) = r2 {
+                            let v2 = check_ops(&o2, &eq, 0..a.len(), 0..b.len());
+                            is_kf1 = v2.script.is_empty() && v2.carried.is_empty();
+                        }
+                    }
+                    if is_kf1 {
+                        out.known_finding(KF1, || format!("{} | {} | ops={}", v.carried[0].1, c(), fmt_ops(&ops)));
+                    } else {
+                        for (code, msg) in &v.carried {
+                            out.violation(code, format!("{} | {} | ops={}", msg, c(), fmt_ops(&ops)));
+                        }
+                    }
+                }
+            }
         }
     }
 }
